@@ -125,6 +125,13 @@ VARIANTS = {
 }
 
 
+# coverage of the library sources by the correspondence runs (a diagnostic for the generators, not part of any check):
+#   VERIF_COV=<dir> ./check Cxx ; tools/covreport.sh <dir>
+if os.environ.get("VERIF_COV"):
+    VARIANTS["asan"][1].extend(["-fprofile-instr-generate", "-fcoverage-mapping"])
+    os.environ["LLVM_PROFILE_FILE"] = os.environ["VERIF_COV"] + "/cov-%8m.profraw"
+
+
 def _prune(prefix, keep):
     """drop old cached builds, but never one used in the last two hours (a long-running check may still execute from it)"""
     ds = sorted([d for d in BUILD.glob(prefix + "*") if d.is_dir()], key=lambda d: d.stat().st_mtime)
@@ -472,6 +479,12 @@ def run_stream(exe, prelude, cases, timeout=120, env=None, per_case_timeout=None
         got = len(lines)
         if rc == 0 and got == n - k:
             res.extend(lines)
+            break
+        if got == n - k and rc not in (0, -999):
+            # every case answered, but the process ended with an error status: a sanitizer report at exit (LeakSanitizer with
+            # detect_leaks=1, or an error in an atexit handler). The last case carries the report.
+            res.extend(lines[:-1])
+            res.append(("CRASH", "rc=%s at exit %s" % (rc, asan_summary(err))))
             break
         good = min(got, n - k)
         res.extend(lines[:good])
